@@ -69,6 +69,9 @@ def grid(tier, kind='pairs'):
     return out
 
 
+BIG = [(32, 32), (24, 36), (33, 18)]           # a few states far beyond the filter lengths (complete basis as well)
+BIG_PAIRS = [('near_sym_a', 'qshift_a'), ('antonini', 'qshift_c'), ('near_sym_b', 'qshift_d')]
+
 _T = {}
 
 
